@@ -31,6 +31,7 @@ type SpecEnv struct {
 	vars   map[string]Value
 	oldVar map[string]Value // values of the same names in the old state (parameters at entry)
 	goName func(name string, st *State) (Value, bool)
+	lastResort func(name string, st *State) (Value, bool) // consulted when nothing resolves an identifier
 	pkg    *types.Package // package whose package-level names are visible
 	inOld  bool
 	what   string
@@ -273,6 +274,11 @@ func (env *SpecEnv) ident(x *SExpr) Value {
 			if v, ok := e.globalValue(env.state(), obj); ok {
 				return v
 			}
+		}
+	}
+	if env.lastResort != nil {
+		if v, ok := env.lastResort(name, env.state()); ok {
+			return v
 		}
 	}
 	env.fail(x, "unknown identifier "+name)
